@@ -349,6 +349,16 @@ func init() {
 			Gen:  c14Gen,
 			Req:  func(t c14Case) Sexp { return L(A("resources"), t.Q.Sexp()) },
 			Impl: c14Impl,
+			// error or success, readers opened, readers closed; the error class only feeds the tags
+			Equal: func(_ c14Case, impl, model Sexp) bool {
+				norm := func(s Sexp) string {
+					if s.IsL && len(s.List) == 3 && !s.List[0].IsL && s.List[0].Atom != "ok" {
+						return L(A("err"), s.List[1], s.List[2]).String()
+					}
+					return s.String()
+				}
+				return norm(impl) == norm(model)
+			},
 			Shrink: c14Shrink,
 			Nontrivial: func(t c14Case, _ Sexp) bool { return t.Q.hasFault() },
 			PropertyFails: func(t c14Case, impl, model Sexp) bool {
